@@ -146,6 +146,22 @@ theorem blocks_table_scan_exact (cutSize : Nat) (tsizeOf : Nat → Nat) (S : Lis
       some ((List.range S.length).map fun i => Hash.extractBlocks (Hash.buildBlocks cutSize tsizeOf S) (i + 1)) :=
   Hash.tableBlocks_build cutSize tsizeOf S hne
 
+/-- **Each member once**: when every part's table holds its block and has a size `nearest_prime` accepted
+(`PartsOK`, re-validated per run by the driver), that scan lists `n` strings, every one a member, none twice —
+so every member exactly once. -/
+theorem blocks_table_scan_each_member_once {cutSize : Nat} {tsizeOf : Nat → Nat} {S : List Str}
+    (ok : Hash.PartsOK cutSize tsizeOf S) (hne : S ≠ []) :
+    ∃ L : List Str, Hash.tableBlocks (Hash.buildBlocks cutSize tsizeOf S) = some (L.map some) ∧
+      L.length = S.length ∧ L.Nodup ∧ ∀ w ∈ L, w ∈ S :=
+  Hash.tableBlocks_each_once ok hne
+
+/-- The single-table hash kinds fill the table with `extract(1), …, extract(n)` (`IteratorDictStringVector`): over
+a good table (`Hash.GoodDict`: the hypotheses of the hash theorems of C01 / C02) that lists every member exactly
+once. -/
+theorem hash_table_scan_each_member_once {d : Hash.HDict} (g : Hash.GoodDict d) :
+    ∃ L : List Str, Hash.tableHash d = L.map some ∧ L.length = d.S.length ∧ L.Nodup ∧ ∀ w ∈ L, w ∈ d.S :=
+  Hash.tableHash_each_once g
+
 /-- The blocks iterator model was written against the current text of the C++ functions it mirrors. -/
 theorem blocks_iterator_models_match_source_text :
     Generated.body_Blocks_extractTable = SourceText.body_Blocks_extractTable ∧
